@@ -31,6 +31,15 @@ Three kinds of cases
            directory), optionally a same-length edit of the previous step's recipe, optionally
            continuing the previous step's run; rows/parse result of every step compared with the
            inline recipe given as a stream, every step's parse result with the model.
+  chain    the option rule over HISTORIES: 2-5 generate() calls in one process, every link with its
+           own user options (each declared option supplied / left out with default / left out
+           without default, falsy values) and usually the recipe of the link before it (sometimes
+           another default, a default dropped or added); a link continues the last successful run
+           before it (continuation file as text, as a file on disk, or through snowfakery.cli with
+           --continuation-file / --option) or starts afresh.  Oracle: every row of every run shows,
+           for every declared option, the value THIS run supplies, else the default THIS run's recipe
+           declares; the run is a recipe error iff an option has neither.  Model: Macros.run_chain
+           (theorems C14_chain_*): typed values the first row shows vs. chain_options.
 """
 import copy
 import io
@@ -64,12 +73,18 @@ RULE = ("cases: meta = inline recipe + random factoring into 1-4 (nested) macros
         "paths, files included twice, missing files, cycles: parse result vs. the model's path "
         "resolution, rows vs. the OS-inlined single file; session = 2-4 generations in one process "
         "writing to the same paths (same-length edits, new recipes, unchanged, other directory, "
-        "continued runs): every step vs. its inline recipe and vs. the model.  "
+        "continued runs): every step vs. its inline recipe and vs. the model; chain = histories of 2-5 runs "
+        "in one process (grid: default x what run 1 supplies x what the continued run 2 supplies; random: "
+        "1-3 options, per link supplied / left out with or without default / falsy / repeated, declarations "
+        "edited between links, links continued through text, a file or the command line, or fresh): every "
+        "run's rows vs. the option rule on that run's own inputs, and vs. the model's run_chain.  "
         "non-trivial: the recipe uses >=1 macro include or >=1 include_file, an option case "
         "with >=1 declaration, a names case whose name another scope defines too, a session of >=2 "
-        "steps with include files; distinct by case hash")
+        "steps with include files, a chain with a continued run that leaves out an option its history "
+        "supplied; distinct by case hash")
 TRUSTED = ["harness/c14.py: YAML writer for the generated file trees (yaml.safe_dump, temp dir under "
            "/var/tmp), canonical renderer of ParseResult statements (field name + definition text)",
+           "harness/c14.py chain_decode: reading a typed option value off the pair (${{n}}, ${{n is string}};${{n is none}})",
            "harness/c14.py names_layers: which scopes hold the case's name at each place of the fixed "
            "recipe skeleton (the ORDER of the scopes is the model's); os_inline: the reference single "
            "file of a file-system case, include paths followed by the operating system"]
@@ -1131,6 +1146,111 @@ def gen_session(rng):
     return {"kind": "session", "steps": steps}
 
 
+# =================================================================== generation: chains of runs
+CHAIN_SHAPE = 3          # SHAPES[3]: "<is string>;<is none>" next to the plain ${{name}}
+
+
+def chain_link(decls, user, cont, via="text"):
+    return {"decls": decls, "user": user, "cont": cont, "via": via}
+
+
+def _decl(name, d):
+    return {"name": name, "has_default": d != ABSENT, "default": None if d == ABSENT else d}
+
+
+def gen_chain_grid():
+    """two runs, the second continuing the first, one option: (default) x (what run 1 supplies) x
+    (what run 2 supplies); plus the same with the roles of the runs exchanged for the falsy values"""
+    out = []
+    for d in (ABSENT, 1):
+        for u1 in VALS + [ABSENT]:
+            for u2 in (ABSENT, 0, "", None, "x"):
+                links = [chain_link([_decl("n", d)], {} if u == ABSENT else {"n": u}, bool(i))
+                         for i, u in enumerate((u1, u2))]
+                out.append({"kind": "chain", "links": links, "once": u2 == ABSENT, "rows": 1})
+    return out
+
+
+CLI_VALS = [0, 1, 7, "", "x", "o v"]      # values with a spelling on the command line (--option n <text>)
+
+
+def gen_chain(rng):
+    """a history of 2-5 generate() calls in one process.  Every link has its own user options (each
+    declared option supplied / left out, falsy values included), usually the recipe of the link
+    before it (sometimes with another default, a default dropped or added), and continues the last
+    successful run before it (continuation file passed as text or as a file on disk) or starts afresh."""
+    names = rng.sample(OPT_POOL, rng.choice([1, 1, 2, 2, 3]))
+    cur = {n: _decl(n, rng.choice(VALS) if rng.random() < 0.7 else ABSENT) for n in names}
+    links = []
+    last_user = {}
+    for i in range(rng.choice([2, 2, 3, 3, 4, 5])):
+        if i:
+            for n in names:
+                if rng.random() < 0.12:          # the recipe of this link declares the option differently
+                    cur[n] = _decl(n, rng.choice(VALS) if rng.random() < 0.7 else ABSENT)
+        user = {}
+        via = rng.choice(["text", "text", "path", "cli"])     # cli: the run is started through snowfakery.cli
+        vals = CLI_VALS if via == "cli" else VALS
+        for n in names:
+            r = rng.random()
+            if r < (0.4 if cur[n]["has_default"] else 0.65):
+                user[n] = rng.choice(vals)
+            elif r < 0.5 and n in last_user and any(tag(last_user[n]) == tag(x) for x in vals):
+                user[n] = last_user[n]           # the caller repeats the option
+        if rng.random() < 0.12:
+            user["zz"] = rng.choice(vals)        # an option no recipe declares
+        links.append(chain_link([dict(cur[n]) for n in names], user, bool(i) and rng.random() < 0.8, via))
+        last_user = dict(last_user, **user)
+    return {"kind": "chain", "links": links, "once": rng.random() < 0.6, "rows": rng.choice([1, 1, 2])}
+
+
+def chain_recipe(case, link):
+    """the recipe of one link: its declarations, optionally a just_once template reading the options,
+    and a template (with a friend) whose rows show every option plainly, inside text, and its type"""
+    items = [dict(d, t="opt") for d in link["decls"]]
+    names = [d["name"] for d in link["decls"]]
+    shown_fields = [["f_" + n, "${{%s}}" % n] for n in names] + \
+                   [["t_" + n, shape_text(CHAIN_SHAPE, n)] for n in names]
+    if case.get("once"):
+        items.append({"t": "obj", "table": "Once", "just_once": True, "include": [], "friends": [], "count": None,
+                      "fields": copy.deepcopy(shown_fields)})
+    kid = {"table": "Kid", "fields": [["g_" + n, "x${{%s}}y" % n] for n in names], "friends": []}
+    items.append({"t": "obj", "table": "Row", "include": [], "friends": [kid], "count": case.get("rows", 1),
+                  "fields": copy.deepcopy(shown_fields)})
+    return {"items": items}
+
+
+def chain_text(case, link):
+    import yaml
+    data = []
+    for it in chain_recipe(case, link)["items"]:
+        d = item_yaml(it)
+        if it.get("just_once"):
+            d = {"object": d["object"], "just_once": True, **{k: v for k, v in d.items() if k != "object"}}
+        data.append(d)
+    return yaml.safe_dump(data, sort_keys=False, default_flow_style=False)
+
+
+def chain_decode(row, n):
+    """typed value of option n as one row of Row / Once shows it: the plain formula gives str(value)
+    (or the value), the type formula says whether it is a string / None; None if not decodable"""
+    if "f_" + n not in row or "t_" + n not in row:
+        return None
+    f, t = row["f_" + n], row["t_" + n]
+    if t == "False;True":
+        return ["n"] if str(f) == "None" else None
+    if t == "True;False":
+        return ["s", str(f)]
+    if t != "False;False":
+        return None
+    if str(f) in ("True", "False"):
+        return ["b", str(f) == "True"]
+    try:
+        return ["i", int(str(f))]
+    except ValueError:
+        return None
+
+
 def generate(rng, tier):
     cases = list(gen_options_grid()) + gen_names_grid()
     n_meta, n_tree, n_opt = (800, 500, 250) if tier == "quick" else (16000, 7000, 3500)
@@ -1143,6 +1263,9 @@ def generate(rng, tier):
         cases.append(gen_fs(rng))
     for _ in range(n_sess):
         cases.append(gen_session(rng))
+    cases.extend(gen_chain_grid())
+    for _ in range(200 if tier == "quick" else 3000):
+        cases.append(gen_chain(rng))
     for i in range(n_meta):
         inline, user = gen_inline(rng)
         cases.append({"kind": "meta", "inline": inline, "user": user, "fseed": rng.randint(0, 2 ** 31)})
@@ -1306,6 +1429,89 @@ def _run_session(case, tmp):
     return {"steps": steps_obs, "parse": steps_obs[-1]["tree"]["parse"]}
 
 
+def _run_chain_cli(tmp, k, text, link, prev):
+    """one link started the way the command line starts it: snowfakery <recipe> --option n v ...
+    [--continuation-file f] --generate-continuation-file g -> (rows observable, continuation text | None)"""
+    import click
+    from snowfakery.cli import generate_cli
+    paths = {key: os.path.join(tmp, "cli_%s_%d" % (key, k)) for key in ("recipe.yml", "out.json", "cont.yml", "prev.yml")}
+    with open(paths["recipe.yml"], "w") as w:
+        w.write(text)
+    args = [paths["recipe.yml"], "--output-format", "json", "--output-file", paths["out.json"],
+            "--generate-continuation-file", paths["cont.yml"]]
+    if prev is not None:
+        with open(paths["prev.yml"], "w") as w:
+            w.write(prev)
+        args += ["--continuation-file", paths["prev.yml"]]
+    for name, v in link["user"].items():
+        args += ["--option", name, str(v)]
+    try:
+        import contextlib
+        with contextlib.redirect_stdout(io.StringIO()), contextlib.redirect_stderr(io.StringIO()):
+            generate_cli.main(args, standalone_mode=False)
+        with open(paths["out.json"]) as r:
+            txt = r.read()
+        with open(paths["cont.yml"]) as r:
+            cont = r.read()
+        return {"ok": json.loads(txt) if txt.strip() else []}, cont
+    except click.ClickException as e:
+        # the command line reports a recipe error as a ClickException chained to the DataGenError
+        cause = e.__cause__
+        return {"err": C.canon_exc(cause) if cause is not None else "ClickException"}, None
+    except BaseException as e:
+        if isinstance(e, C._CaseTimeout):
+            raise
+        return {"err": C.canon_exc(e)}, None
+
+
+def _run_chain(case, tmp):
+    """the links one after the other in this process; a link with `cont` continues the last link
+    that succeeded (its continuation file handed over as text or as a file on disk)"""
+    from snowfakery import generate_data
+    prev = None                   # text of the continuation file of the last successful run
+    out_links = []
+    for k, link in enumerate(case["links"]):
+        text = chain_text(case, link)
+        use_cont = bool(link.get("cont")) and prev is not None
+        out = io.StringIO()
+        kw, fh = {}, None
+        cont_path = os.path.join(tmp, "cont_%d.yml" % k)
+        if link.get("via") == "cli":
+            rows, new_prev = _run_chain_cli(tmp, k, text, link, prev if use_cont else None)
+            prev = new_prev if new_prev is not None else prev
+            out_links.append({"continued": use_cont, "rows": rows})
+            continue
+        try:
+            if use_cont:
+                if link.get("via") == "path":
+                    with open(os.path.join(tmp, "prev_%d.yml" % k), "w") as w:
+                        w.write(prev)
+                    fh = open(os.path.join(tmp, "prev_%d.yml" % k))
+                    kw["continuation_file"] = fh
+                else:
+                    kw["continuation_file"] = io.StringIO(prev)
+            new_cont = io.StringIO() if link.get("via") != "path" else None
+            kw["generate_continuation_file"] = new_cont if new_cont is not None else cont_path
+            generate_data(io.StringIO(text), user_options=dict(link["user"]), output_format="json",
+                          output_file=out, **kw)
+            txt = out.getvalue()
+            rows = {"ok": json.loads(txt) if txt.strip() else []}
+            if new_cont is not None:
+                prev = new_cont.getvalue()
+            else:
+                with open(cont_path) as r:
+                    prev = r.read()
+        except BaseException as e:
+            if isinstance(e, C._CaseTimeout):
+                raise
+            rows = {"err": C.canon_exc(e)}
+        finally:
+            if fh is not None:
+                fh.close()
+        out_links.append({"continued": use_cont, "rows": rows})
+    return {"links": out_links}
+
+
 def options_file(case):
     """the recipe of an options case: the declarations and one template showing every declared name"""
     items = [dict(d, t="opt") for d in case["decls"]]
@@ -1347,6 +1553,8 @@ def run_impl(case):
             return _run_fs(case, tmp)
         if kind == "session":
             return _run_session(case, tmp)
+        if kind == "chain":
+            return _run_chain(case, tmp)
         raise ValueError(kind)
     finally:
         shutil.rmtree(tmp, ignore_errors=True)
@@ -1505,6 +1713,37 @@ def coq_case(case, obs):
                 return None
             runs.append(_cfs_run(tree_fs(factorings(st)[1]), p))
         term = f"CFs {C.clist(runs)}"
+        return term if _printable(term) else None
+    if kind == "chain":
+        links, exp = [], []
+        for link, o in zip(case["links"], obs.get("links", [])):
+            names = [d["name"] for d in link["decls"]]
+            if len(set(names)) != len(names):
+                return None
+            decls = C.clist(f"mkOpt {C.cstr(d['name'])} " + (f"(Some {coval(tag(d['default']))})" if d["has_default"] else "None")
+                            for d in link["decls"])
+            user = C.clist(C.cpair(C.cstr(k), coval(tag(v))) for k, v in link["user"].items())
+            # a failed run leaves no continuation: the model, like the harness, goes on from the last good run
+            links.append(f"(mkLink {decls} {user} {C.cbool(bool(link.get('cont')))})")
+            r = o["rows"]
+            if "ok" in r:
+                first = [row for row in r["ok"] if row.get("_table") == "Row"][:1]
+                if not first:
+                    return None
+                seen = [[n, chain_decode(first[0], n)] for n in names]
+                if any(t is None for _, t in seen):
+                    return None          # what the row shows is not one of the typed values: the oracle speaks
+                if link.get("via") == "cli" and any(
+                        n in link["user"] and t != tag(link["user"][n]) and str(t[-1]) == str(link["user"][n])
+                        for n, t in seen):
+                    return None          # the command line's own reading of the text (numbers) is not modelled
+                exp.append({"ok": seen})
+            else:
+                exp.append({"err": r["err"]})
+        if len(links) != len(case["links"]):
+            return None
+        term = (f"CChain {C.clist(links)} " +
+                C.clist(C.cresult(e, lambda v: C.clist(C.cpair(C.cstr(k), coval(t)) for k, t in v)) for e in exp))
         return term if _printable(term) else None
     if kind == "options":
         m = obs.get("merged")
@@ -1716,6 +1955,8 @@ def oracle(case, obs):
         return _names_oracle(case, obs)
     if kind == "fs":
         return _fs_oracle(case, obs)
+    if kind == "chain":
+        return _chain_oracle(case, obs)
     if kind == "session":
         for k, (st, o) in enumerate(zip(case["steps"], obs["steps"])):
             msg = _same_as_inline(o["tree"], o["inline"],
@@ -1724,6 +1965,56 @@ def oracle(case, obs):
             if msg:
                 return msg
         return None
+
+
+def _chain_oracle(case, obs):
+    """the option rule at every link of a history, from the link's OWN inputs: every row of Row / Kid
+    (and of Once, in a run that does not continue another) shows, for every declared option, the
+    value this link supplies, else the default this link's recipe declares; the run is a recipe
+    error iff an option of this link has neither"""
+    n_links = len(case["links"])
+    hist = []
+    for k, (link, o) in enumerate(zip(case["links"], obs["links"])):
+        names = [d["name"] for d in link["decls"]]
+        rows = o["rows"]
+        hist.append(("continues" if o["continued"] else "fresh") + " user=" + json.dumps(link["user"], sort_keys=True))
+        where = (f"chain run {k + 1}/{n_links} (history: {' | '.join(hist)}; declared: "
+                 f"{ {d['name']: (d['default'] if d['has_default'] else '<no default>') for d in link['decls']} })")
+        if len(set(names)) != len(names):
+            continue
+        exp = {d["name"]: expected_option(d, link["user"]) for d in link["decls"]}
+        missing = sorted(n for n, (kd, _) in exp.items() if kd == "error")
+        if missing:
+            if "ok" in rows:
+                return (f"options: {where}: option {missing[0]} has neither a value supplied to this run nor a "
+                        f"default, but the run succeeded")
+            if rows["err"] != "DGE":
+                return f"options: {where}: missing option {missing[0]} reported as {rows['err']} instead of a recipe error"
+            continue
+        if "err" in rows:
+            return (f"options: {where}: every option has a supplied value or a default but the run failed "
+                    f"with {rows['err']}")
+        n_row = 0
+        for row in rows["ok"]:
+            tb = row.get("_table")
+            if tb == "Once" and o["continued"]:
+                continue                      # a just_once row of an earlier run is not this run's business
+            for n, (_, v) in exp.items():
+                if tb in ("Row", "Once"):
+                    n_row += tb == "Row"
+                    want_t = shown(tag(v), CHAIN_SHAPE)
+                    typed = not (link.get("via") == "cli" and n in link["user"])   # --option text: str() only
+                    if "f_" + n in row and str(row["f_" + n]) != str(v) or \
+                            typed and "t_" + n in row and str(row["t_" + n]) != want_t:
+                        return (f"options: {where}: ${{{{{n}}}}} in table {tb} shows {row.get('f_' + n)!r} "
+                                f"(is string;is none = {row.get('t_' + n)!r}) but by this run's inputs it is {v!r}")
+                elif tb == "Kid":
+                    if "g_" + n in row and str(row["g_" + n]) != "x" + str(v) + "y":
+                        return (f"options: {where}: x${{{{{n}}}}}y in table Kid shows {row['g_' + n]!r} "
+                                f"but by this run's inputs the option is {v!r}")
+        if names and not n_row:
+            return f"options: {where}: the run made no row of table Row"
+    return None
 
 
 def _same_as_inline(o, base, what):
@@ -1807,6 +2098,25 @@ def _count_items(f, c):
             c[it["t"] + "_with_include"] += 1
 
 
+def chain_events(case, obs):
+    """per link: how it relates to its history (for evidence)"""
+    out = []
+    supplied_before = {}          # option -> values supplied by the runs this link's continuation descends from
+    for link, o in zip(case["links"], obs.get("links", [])):
+        if not o["continued"]:
+            supplied_before = {}
+        left = [d["name"] for d in link["decls"] if d["name"] not in link["user"] and d["name"] in supplied_before]
+        differs = [n for n in left
+                   if any(not d["has_default"] or tag(d["default"]) != tag(supplied_before[n])
+                          for d in link["decls"] if d["name"] == n)]
+        out.append({"continued": o["continued"], "left_out_after_supplied": bool(left),
+                    "history_value_differs_from_own": bool(differs),
+                    "ok": "ok" in o["rows"], "err": o["rows"].get("err")})
+        if "ok" in o["rows"]:
+            supplied_before = dict(supplied_before, **link["user"])
+    return out
+
+
 def nontrivial(case, obs):
     if case["kind"] == "meta":
         info = obs.get("info", {})
@@ -1823,6 +2133,9 @@ def nontrivial(case, obs):
         return any(it["t"] == "inc" for f in case["files"].values() for it in f["items"])
     if case["kind"] == "session":
         return len(case["steps"]) >= 2 and any(o["info"].get("files", 0) for o in obs.get("steps", []))
+    if case["kind"] == "chain":
+        # a run that continues another one and leaves out an option its history supplied
+        return any(ev["continued"] and ev["left_out_after_supplied"] for ev in chain_events(case, obs))
     return len(case["decls"]) >= 1
 
 
@@ -1832,7 +2145,7 @@ def stats(cases, obss):
     tree = Counter()
     outcomes = Counter()
     optc = Counter()
-    namec, fsc, sessc = Counter(), Counter(), Counter()
+    namec, fsc, sessc, chainc = Counter(), Counter(), Counter(), Counter()
     for c, o in zip(cases, obss):
         if not isinstance(o, dict):
             continue
@@ -1886,6 +2199,30 @@ def stats(cases, obss):
             dirs = [st["dir"] for st in c["steps"]]
             sessc["sessions_rewriting_a_directory"] += len(set(dirs)) < len(dirs)
             continue
+        if c["kind"] == "chain" and "links" in o:
+            chainc["chains"] += 1
+            chainc["runs"] += len(c["links"])
+            chainc["chains_of_%d" % len(c["links"])] += 1
+            chainc["chains_with_just_once_template"] += bool(c.get("once"))
+            prev_decls = None
+            for link, ev in zip(c["links"], chain_events(c, o)):
+                chainc["run:" + ("continues" if ev["continued"] else "fresh")] += 1
+                chainc["run:" + ("ok" if ev["ok"] else str(ev["err"]))] += 1
+                chainc["continuation_via_" + link.get("via", "text")] += ev["continued"]
+                chainc["continued_runs_leaving_out_an_option_their_history_supplied"] += \
+                    ev["continued"] and ev["left_out_after_supplied"]
+                chainc["...where_the_history_value_differs_from_default_or_no_default"] += \
+                    ev["continued"] and ev["history_value_differs_from_own"]
+                chainc["runs_with_changed_declarations"] += prev_decls is not None and prev_decls != link["decls"]
+                prev_decls = link["decls"]
+                for d in link["decls"]:
+                    if d["name"] in link["user"]:
+                        chainc["option:supplied"] += 1
+                        chainc["option:supplied_falsy"] += not link["user"][d["name"]]
+                    else:
+                        chainc["option:left_out_" + ("with_default" if d["has_default"] else "without_default")] += 1
+                chainc["undeclared_user_options"] += sum(1 for k in link["user"] if k not in {d["name"] for d in link["decls"]})
+            continue
         if "parse" not in o:
             continue
         p = o["parse"]
@@ -1913,7 +2250,7 @@ def stats(cases, obss):
             optc["falsy_defaults"] += sum(1 for d in c["decls"] if d["has_default"] and not d["default"])
             optc["undeclared_user_options"] += sum(1 for k in c["user"] if k not in {d["name"] for d in c["decls"]})
     return {"kinds": dict(kinds), "meta": dict(meta), "tree_items": dict(tree), "outcomes": dict(outcomes),
-            "options": dict(optc), "names": dict(namec), "fs": dict(fsc), "session": dict(sessc)}
+            "options": dict(optc), "names": dict(namec), "fs": dict(fsc), "session": dict(sessc), "chain": dict(chainc)}
 
 
 # =================================================================== shrinking / directed search
@@ -1971,6 +2308,25 @@ def shrink(case):
                 yield dict(case, files=dict(files, **{rel: {"items": f["items"][:i] + f["items"][i + 1:]}}))
         for k in list(case["user"]):
             yield dict(case, user={a: b for a, b in case["user"].items() if a != k})
+    elif kind == "chain":
+        links = case["links"]
+        for i in range(len(links)):
+            if len(links) > 1:
+                yield dict(case, links=links[:i] + links[i + 1:])
+        if case.get("once"):
+            yield dict(case, once=False)
+        if case.get("rows", 1) > 1:
+            yield dict(case, rows=1)
+        allnames = sorted({d["name"] for l in links for d in l["decls"]})
+        if len(allnames) > 1:
+            for n in allnames:             # one option less, in every link
+                yield dict(case, links=[dict(l, decls=[d for d in l["decls"] if d["name"] != n],
+                                             user={k: v for k, v in l["user"].items() if k != n}) for l in links])
+        for i, l in enumerate(links):
+            if l.get("via") in ("path", "cli"):
+                yield dict(case, links=links[:i] + [dict(l, via="text")] + links[i + 1:])
+            for k in list(l["user"]):
+                yield dict(case, links=links[:i] + [dict(l, user={a: b for a, b in l["user"].items() if a != k})] + links[i + 1:])
     elif kind == "session":
         steps = case["steps"]
         for i in range(len(steps)):
@@ -1999,6 +2355,9 @@ def directed_search(rng, disagreeing):
         out.append(gen_fs(rng))
     for _ in range(300):
         out.append(gen_session(rng))
+    out.extend(gen_chain_grid())
+    for _ in range(1500):
+        out.append(gen_chain(rng))
     # the disagreeing cases' neighbours: the same inline recipes under other factorings
     for c in disagreeing:
         if c.get("kind") == "meta":
